@@ -11,10 +11,18 @@
     application-side observations must be equal op by op, with and without admin clients, for
     modes x read_only x Server/AsyncServer; admin `emit/join/leave/_disconnect` requests injected
     where no mutator is registered must change nothing.
+(c) the tie of theorem `C18.wrappers_transparent_partial`: on the same side-by-side scenarios the Lean
+    model of the instrumented server (`Sio.Admin.Instrumented.step`: `Server.step` on the instrumented
+    registry + the wrappers' reports, driver `sd_admin`, ops `inst_cfg` / `inst_step`) is run on the
+    very history the real instrumented server was given — admin transports included — and its
+    application projection (`appView`: packets per application transport, handler invocations,
+    callbacks, API results; finally the rooms of `appState`) is compared with what the application side
+    of the REAL instrumented server observed.  The content of the reports is not compared.
 """
 import copy
 import json
 import math
+import re
 
 from .. import common as C
 from .. import gen as G
@@ -908,6 +916,8 @@ class PairCase:
         self.plain = None
         self.inst = None
         self.ops = []
+        self.inst_trace = []      # [(op, instrumented server's application-side observation, admin transports connected)]
+        self.final_state = None
         self.fail = None          # (kind, text)
 
     def open(self):
@@ -930,6 +940,7 @@ class PairCase:
         self.ops.append(op)
         a = self.plain.do(copy.deepcopy(op))
         b = self.inst.do(copy.deepcopy(op))
+        self.inst_trace.append((op, b, None))
         if self.fail is None:
             d = obs_diff(a, b)
             if not d:
@@ -946,6 +957,7 @@ class PairCase:
         before = app_state(self.inst)
         obs = self.inst.admin(op)
         after = app_state(self.inst)
+        self.inst_trace.append((op, obs, sorted(t for t in self.inst.admin_tids if self.inst.admin_connected(t))))
         if self.fail is None and must_be_inert:
             if not quiet(obs):
                 self.fail = ('admin-visible', 'admin op %d %s reached the application side: %r' % (
@@ -1056,9 +1068,232 @@ def run_pair_case(ctx, profile, family, inst_spec, with_admin, nops):
                     sc.learn(op, pc.app_op(op))
         fail = pc.fail
         ops = list(pc.ops)
+        tie = (list(pc.inst_trace), app_state(pc.inst))
     finally:
         pc.close()
-    return fail, {'family': family, 'cfg': cfg, 'coro': coro, 'inst': inst_spec, 'ops': ops}, stats
+    return fail, {'family': family, 'cfg': cfg, 'coro': coro, 'inst': inst_spec, 'ops': ops}, stats, tie
+
+
+
+# ====================================================================== (c) the model of the instrumented server
+
+_SID = re.compile(r'(?<![A-Za-z0-9_])s\d+(?![A-Za-z0-9_])')
+_tie_driver = None
+
+
+def tie_driver():
+    global _tie_driver
+    if _tie_driver is None:
+        _tie_driver = C.Driver('admin')
+    return _tie_driver
+
+
+def inst_auth_wire(a):
+    """the `auth=` of the pair cases (INST_AUTHS) in the driver's vocabulary"""
+    if a in ('pred', 'coro'):
+        return {'pred': {'hasKey': [C.s2w('token'), C.j2w('letmein')]}}
+    return {'val': C.j2w(a)}
+
+
+def _mentions_sid_like(op):
+    """application inputs that carry something shaped like a session name outside the fields that are session
+    names: the renaming between model ids and observed ids could not tell them apart"""
+    k = op['op']
+    if k == 'burst':
+        return any(_mentions_sid_like(o) for o in op['frames'])
+    if k == 'frame':
+        return bool(_SID.search(op['text']))
+    if k == 'frameval':
+        return bool(_SID.search(repr(op['v'])))
+    if k in ('emit', 'call'):
+        return bool(_SID.search(json.dumps([op['ev'], C.jsonable(op['data'])], default=repr)))
+    if k in ('save_session', 'session_block', 'session_nested'):
+        return bool(_SID.search(json.dumps(C.jsonable({x: op.get(x) for x in ('v', 'k', 'v2', 'k2')}), default=repr)))
+    return False
+
+
+class ModelNames:
+    """model session ids (s<n> by allocation, admin sessions included) <-> observed names (s<k> by first
+    appearance on the application side)"""
+
+    def __init__(self):
+        self.m2h = {}
+        self.h2m = {}
+
+    def learn(self, ans):
+        def walk(v):
+            if isinstance(v, str):
+                if _SID.fullmatch(v):
+                    self.add(v)
+            elif isinstance(v, (list, tuple)):
+                for x in v:
+                    walk(x)
+            elif isinstance(v, dict):
+                for x in v.values():
+                    walk(x)
+        outs = ans['outs']
+        for o in outs:
+            if 'invoke' in o or 'callback' in o:
+                walk([C.w2j(a) for a in o['args']])
+        for o in outs:
+            if 'send' in o:
+                for m in _SID.findall(C.w2s(o['text'])):
+                    self.add(m)
+
+    def add(self, m):
+        if m not in self.m2h:
+            h = 's%d' % len(self.m2h)
+            self.m2h[m] = h
+            self.h2m[h] = m
+
+    def to_model(self, name):
+        if isinstance(name, str) and _SID.fullmatch(name):
+            return self.h2m.get(name, 'x' + name)      # a name nobody has: unknown to the model too
+        return name
+
+    def text_to_model(self, text):
+        return _SID.sub(lambda m: self.h2m.get(m.group(0), 'x' + m.group(0)), text)
+
+    def to_harness(self, v):
+        if isinstance(v, str):
+            return _SID.sub(lambda m: self.m2h.get(m.group(0), '?' + m.group(0)), v)
+        if isinstance(v, (list, tuple)):
+            return [self.to_harness(x) for x in v]
+        if isinstance(v, dict):
+            return {k: self.to_harness(x) for k, x in v.items()}
+        return v
+
+
+def _op_to_model(op, names):
+    o = copy.deepcopy(op)
+    for k in ('sid', 'room'):
+        if k in o:
+            o[k] = names.to_model(o[k])
+    if o.get('to') is not None:
+        to = o['to']
+        o['to'] = {'many': [names.to_model(r) for r in to['many']]} if 'many' in to else {'one': names.to_model(to['one'])}
+    if 'skip' in o:
+        o['skip'] = [names.to_model(x) for x in o['skip']]
+    return o
+
+
+def _empty_obs():
+    return {'sends': {}, 'invokes': [], 'callbacks': [], 'result': None, 'exc': None, 'raised': False, 'timeout': False}
+
+
+def _merge(m, x):
+    for t, fr in x['sends'].items():
+        m['sends'].setdefault(t, []).extend(fr)
+    m['invokes'] += x['invokes']
+    m['callbacks'] += x['callbacks']
+    m['raised'] = m['raised'] or x['raised']
+    for k in ('result', 'has_result'):
+        if x.get(k) is not None:
+            m[k] = x[k]
+
+
+def model_tie(case, inst_trace, final_state):
+    """-> ('ok' | 'skip' | 'diff', text, stats).  Runs `Instrumented.step` over the history the real instrumented
+    server was given and compares application projections."""
+    st = {'steps': 0, 'hidden': 0, 'admin_steps': 0}
+    for op, _obs, _adm in inst_trace:
+        if op.get('admin'):
+            continue
+        if op['op'] == 'call':
+            return 'skip', 'call()', st
+        if _mentions_sid_like(op):
+            return 'skip', 'sid-like payload', st
+    d = tie_driver()
+    inst = case['inst']
+    d.ask({'op': 'inst_cfg', 'cfg': S.cfg_wire(case['cfg'])['cfg'], 'admin_ns': C.s2w(ADMIN_NS), 'mode': C.s2w(inst['mode']),
+           'read_only': bool(inst['read_only']), 'auth': inst_auth_wire(inst['auth'])})
+    names = ModelNames()
+
+    def step(o):
+        if not S.representable(o):
+            raise C.Unrepresentable(o.get('text', ''))
+        ans = d.ask({'op': 'inst_step', 'input': S.op_wire(o)})
+        st['steps'] += 1
+        st['hidden'] += ans['hidden']
+        names.learn(ans)
+        mo = S.model_obs(ans)
+        mo['raised'] = mo['raised'] or bool(ans.get('contained_raised'))
+        mo['sends'] = {t: [names.to_harness(f) if isinstance(f, str) else f for f in fr] for t, fr in mo['sends'].items()}
+        mo['invokes'] = [(sl, names.to_harness(a)) for sl, a in mo['invokes']]
+        mo['callbacks'] = [(n, names.to_harness(a)) for n, a in mo['callbacks']]
+        mo['result'] = names.to_harness(mo['result'])
+        return mo, ans
+
+    try:
+        for idx, (op, obs, admins) in enumerate(inst_trace):
+            if op.get('admin'):
+                k = op['op']
+                if k == 'admin_stats':
+                    continue
+                if k == 'admin_open':
+                    o = {'op': 'open', 't': op['t']}
+                elif k == 'admin_lost':
+                    o = {'op': 'lost', 't': op['t'], 'reason': 'transport close'}
+                else:
+                    o = {'op': 'frame', 't': op['t'], 'text': names.text_to_model(op['text'])}
+                mo, ans = step(o)
+                st['admin_steps'] += 1
+                if not ans['quiet']:
+                    return 'skip', 'outside the theorem\'s domain (quietStep false) at op %d' % idx, st
+                if mo['sends'] or mo['invokes'] or mo['callbacks']:
+                    return 'diff', 'op %d %s: the model shows admin traffic on the application side: %r' % (
+                        idx, S._brief(op), {x: mo[x] for x in ('sends', 'invokes', 'callbacks') if mo[x]}), st
+                got = sorted(C.w2s(t) for t in ans['admins'])
+                if admins is not None and got != admins:
+                    return 'diff', 'op %d %s: admin transports connected: implementation %r, model %r' % (
+                        idx, S._brief(op), admins, got), st
+                continue
+            if op['op'] == 'session_nested':
+                subs = S._nested_as_blocks(op)
+            elif op['op'] == 'burst':
+                subs = op['frames']
+            else:
+                subs = [op]
+            mo = _empty_obs()
+            for sub in subs:
+                x, ans = step(_op_to_model(sub, names))
+                if not ans['quiet']:
+                    return 'skip', 'outside the theorem\'s domain (quietStep false) at op %d' % idx, st
+                if op['op'] == 'session_nested':
+                    mo = x
+                else:
+                    _merge(mo, x)
+            diffs = S.compare(op, obs, mo)
+            if diffs:
+                return 'diff', 'op %d %s: %s' % (idx, S._brief(op), '; '.join(diffs)[:900]), st
+        snap = d.ask({'op': 'inst_snapshot'})
+    except C.Unrepresentable:
+        return 'skip', 'unrepresentable frame', st
+    rooms = sorted(((C.w2s(ns), None if room is None else names.to_harness(C.w2s(room)), names.to_harness(C.w2s(sid)), C.w2s(eio))
+                    for ns, room, sid, eio in snap['rooms']), key=repr)
+    want = sorted((tuple(r) for r in final_state['rooms']), key=repr)
+    if rooms != want:
+        return 'diff', 'rooms of application namespaces after the history: implementation %r, model appState %r' % (want, rooms), st
+    env = sorted(C.w2s(t) for t in snap['environ'])
+    # `environ` of the model holds admin transports too (appState keeps it whole)
+    adm_t = {op['t'] for op, _o, _a in inst_trace if op.get('admin') and op.get('t')}
+    if sorted(t for t in env if t not in adm_t) != final_state['environ']:
+        return 'diff', 'environ after the history: implementation %r, model %r' % (final_state['environ'], env), st
+    return 'ok', '', st
+
+
+def execute_tie(case):
+    """re-run a recorded pair case on the real instrumented server and on the model -> (verdict, text)"""
+    pc = PairCase(case['family'], case['cfg'], case['coro'], case['inst'])
+    try:
+        pc.open()
+        pc.replay_ops(case['ops'])
+        if pc.fail:
+            return 'pair', '%s: %s' % pc.fail
+        v, text, _st = model_tie(case, pc.inst_trace, app_state(pc.inst))
+        return v, text
+    finally:
+        pc.close()
 
 
 INST_AUTHS = [{'username': 'admin', 'password': 's3cret'}, [{'u': 1}, {'token': 'letmein'}], 'pred', 'coro', False]
@@ -1083,8 +1318,28 @@ def run_pairs(ctx, ncases, nops):
             auth = 'pred'
         inst_spec = {'mode': mode, 'read_only': ro, 'auth': auth}
         with_admin = rng.random() < 0.65
-        fail, case, stats = run_pair_case(ctx, profile, family, inst_spec, with_admin, nops)
+        fail, case, stats, tie = run_pair_case(ctx, profile, family, inst_spec, with_admin, nops)
         evals += stats['app_ops'] + stats['admin_ops'] + stats['mutators']
+        if not fail:
+            verdict, text, tst = model_tie(case, tie[0], tie[1])
+            ctx.count('tie.' + verdict)
+            ctx.count('tie.model_steps', tst['steps'])
+            ctx.count('tie.hidden_outputs', tst['hidden'])
+            ctx.count('tie.admin_steps', tst['admin_steps'])
+            if verdict == 'skip':
+                ctx.count('tie.skip.' + text.split(' at op')[0])
+            if verdict == 'ok' and with_admin and tst['admin_steps'] >= 3:
+                ctx.count('tie.ok_with_admin')
+            if verdict == 'diff':
+                def still_tie(cand):
+                    return execute_tie(dict(case, ops=cand))[0] == 'diff'
+                small = S.shrink_ops(case['ops'], still_tie, budget=60)
+                v2, t2 = execute_tie(dict(case, ops=small))
+                if v2 != 'diff':
+                    small, t2 = case['ops'], text
+                ctx.violation('correspondence', 'model of the instrumented server (Instrumented.step, %s, read_only=%s) vs the '
+                              'real instrumented %s server, application projection: %s' % (mode, ro, family, t2[:700]),
+                              dict(case, ops=small, part='tie', failure=t2), no_input=True)
         ctx.count('pair.%s.%s.ro=%s.admin=%s' % (family, mode, ro, with_admin))
         ctx.count('pair.profile.' + pname)
         if fail:
@@ -1166,9 +1421,16 @@ def run(ctx):
     ctx.assumptions += [
         'gate and read-only clauses: Lean theorems over Sio/Model/Admin.lean + Sio/Model/Server.lean, tied to '
         'admin.py / async_admin.py by the gate / registry / pyEq correspondence of this check',
-        'transparency clause: decided by translation validation = side-by-side correspondence of a real instrumented '
-        'and a real plain server under generated application scenarios (no model in between); the model-level '
-        'statement is only `report_invisible`',
+        'transparency clause: theorem wrappers_transparent_partial over the model Instrumented.stepWith (Server.step on '
+        'the instrumented registry + the admin handlers\' API calls + the wrappers\' reports), for every reporting '
+        'policy; hypotheses: AppClear, the plain server does not serve the admin namespace, API calls do not address '
+        'it, no blocking call(), no mutator invoked, no queued admin event named `connect` (Instrumented.quiet); the '
+        'reference run lets the id generator and the connect/event scripts skip what the admin CONNECTs consumed',
+        'tie of that model: Instrumented.step is run on the history the real instrumented server was given (admin '
+        'transports included) and its application projection (appView / appState rooms) compared with the real '
+        'instrumented server\'s application-side observations; independently the real instrumented and the real plain '
+        'server are compared side by side (the oracle); the admin_connect outcome is spliced into the model\'s connect '
+        'script by the driver from the modelled gate (connectOutcome)',
         'the statistics the instrumentation emits to admins are not modelled; only their absence from application '
         'transports is checked (one iteration of the stats task is run explicitly, never the endless loop)',
         '`server_stats_interval` and `sio.sleep` are stubbed (no wall-clock waits)',
@@ -1205,7 +1467,11 @@ def run(ctx):
         'refusal; non-trivial = configuration with both accepted and refused payloads. '
         'pairs: C04/C05/C06 scenario generators on a plain and an instrumented real server, observations and manager '
         'state compared after every op, admin clients connecting / refused / leaving / injecting mutators in between; '
-        'non-trivial = >=10 application ops and (if an admin is present) >=3 admin ops')
+        'non-trivial = >=10 application ops and (if an admin is present) >=3 admin ops. '
+        'tie: every pair case without a difference is also run on the model Instrumented.step (same history, admin '
+        'transports included) and its application projection compared with the real instrumented server op by op, '
+        'plus rooms / environ at the end (distribution keys tie.*; cases with call() or with payloads shaped like '
+        'session names are skipped)')
     C.fold_proof_failures(ctx)
 
 
@@ -1226,6 +1492,10 @@ def replay(ctx, r):
             print('verdict: %s' % ('property violated on the implementation' if pc.fail else 'no difference'))
         finally:
             pc.close()
+        return 0
+    if part == 'tie':
+        v, text = execute_tie(case)
+        print('model of the instrumented server vs real instrumented server: %s %s' % (v, text))
         return 0
     if part == 'gate':
         payloads = [(l, ABSENT if p == 'ABSENT' else p, raw) for l, p, raw in case['payloads']]
